@@ -24,10 +24,9 @@ mv /tmp/seed/$P.demo.keep $DEMO
 RACE=""; grep -q "race" SEED.md 2>/dev/null && grep -qi "go test.*-race" SEED.md && RACE="-race"
 WITH=$(go test -vet=off -count=1 $RACE -run 'Seed' $PKG 2>&1 | tail -15); echo "$WITH" | grep -qE "^(--- FAIL|FAIL|panic)|DATA RACE" && WITH_FAIL=1 || WITH_FAIL=0
 # 3. demo without the change
-FILES=$(git diff --name-only)
-git stash push -q -- $FILES
+git apply -R $D/patch.diff
 WITHOUT=$(go test -vet=off -count=1 $RACE -run 'Seed' $PKG 2>&1 | tail -5); echo "$WITHOUT" | grep -qE "^ok" && WITHOUT_OK=1 || WITHOUT_OK=0
-git stash pop -q
+git apply $D/patch.diff
 git checkout -q -- supported_mimes.md 2>/dev/null
 python3 - "$D" "$P" "$NAME" "$SUITE_OK" "$WITH_FAIL" "$WITHOUT_OK" "$RACE" <<'PY'
 import json,sys,os
